@@ -247,7 +247,7 @@ class _Null:
         return False
 
 
-def _compute_call(cfg, rng_seed, clock_s, out_path, write_stages, tracer_factory):
+def _compute_call(cfg, rng_seed, clock_s, out_path, write_stages, tracer_factory, compute_kw=None):
     """Runs compute() once under the clock / RNG / scheduler seams.  Returns (status, table, tracer)."""
     import dask
     import numpy as np
@@ -265,7 +265,7 @@ def _compute_call(cfg, rng_seed, clock_s, out_path, write_stages, tracer_factory
             if tr is not None:
                 sys.settrace(tr.glob)
             try:
-                table = compute(cfg, output_file=out_path, write_stages=write_stages)
+                table = compute(cfg, output_file=out_path, write_stages=write_stages, **(compute_kw or {}))
             except InjectedStageFault:
                 status = "raised-injected"
             except Exception as e:  # noqa: BLE001
@@ -277,7 +277,7 @@ def _compute_call(cfg, rng_seed, clock_s, out_path, write_stages, tracer_factory
     return status, table, tr
 
 
-def reference_run(cfg, rng_seed, clock_s, src_prefix, outname="out.fits"):
+def reference_run(cfg, rng_seed, clock_s, src_prefix, outname="out.fits", compute_kw=None):
     """Fault-free traced run with staging on.  In-process (the caller is a pool worker)."""
     d = tempfile.mkdtemp(prefix="c17ref-")
     try:
@@ -290,6 +290,7 @@ def reference_run(cfg, rng_seed, clock_s, src_prefix, outname="out.fits"):
             status, table, tr = _compute_call(
                 cfg, rng_seed, clock_s, out, True,
                 lambda box: StageTracer(src_prefix, box, out, snapshot=True, side_dir=side),
+                compute_kw,
             )
         finally:
             os.chdir(cwd)
@@ -310,7 +311,7 @@ def reference_run(cfg, rng_seed, clock_s, src_prefix, outname="out.fits"):
         shutil.rmtree(d, ignore_errors=True)
 
 
-def fault_run(cfg, rng_seed, clock_s, src_prefix, fault, *, write_stages=True, give_output=True, trace_fits=False, outname="out.fits"):
+def fault_run(cfg, rng_seed, clock_s, src_prefix, fault, *, write_stages=True, give_output=True, trace_fits=False, outname="out.fits", compute_kw=None):
     """One forked run.  fault: None | {"kind","step"}.  Returns dict(report, file_bytes, listing, audit)."""
     d = tempfile.mkdtemp(prefix="c17case-")
     rfd, wfd = os.pipe()
@@ -428,7 +429,7 @@ def fault_run(cfg, rng_seed, clock_s, src_prefix, fault, *, write_stages=True, g
                 tracer_box[0] = t
                 return t
 
-            status, table, tr = _compute_call(cfg, rng_seed, clock_s, out, write_stages, make_tracer)
+            status, table, tr = _compute_call(cfg, rng_seed, clock_s, out, write_stages, make_tracer, compute_kw)
             active[0] = False
             rep = {"status": status, "k_final": tr.k, "steps": tr.steps, "fired": tr.fired, "audit": audit[:50], "rows": None}
             if io_mode:
